@@ -1,5 +1,38 @@
-from . import _common
+"""C20 - expansion is a pure function of (attribute, item)."""
+import json, os
+from . import _s, sprops
+from smir import replay
+from vlib import core
 
 
 def run(out):
-    _common.run(out, 'C20', s_props=['C20'])
+    out.level = 'other'
+    sl = sprops.slices_for('C20', out.tier)
+    for s in sl:
+        s['validate'] = 10
+    results = _s.run_s(out, sl, ['C20'])
+    impure = []
+    cases = []
+    for r in results:
+        impure += r.get('impure', [])
+        cases += [v for v in r.get('validate', []) if v and 'error' not in v]
+    # a mocked, non-exported item after an exporting invocation: state leaking between invocations shows up here
+    cases.append(dict(macro='entrait_export', attr_src='pub ExpFirst, mockall', item_src='fn exp_first ( deps : & impl B0 ) { }', item_flat=[], pred=None, kind='ok'))
+    cases.append(dict(macro='entrait', attr_src='pub Plain, mockall', item_src='fn plain < A , B , C , E > ( deps : & impl B0 , a : A , b : B , c : C , e : E ) { }', item_flat=[], pred=None, kind='ok'))
+    cases.append(dict(macro='entrait', attr_src='pub Plain2, mock_api = M, unimock', item_src='fn plain2 ( deps : & impl B0 ) { }', item_flat=[], pred=None, kind='ok'))
+    nkeys, nexp, diffs = replay.determinism_check(cases, 's_determinism_C20')
+    c = out.coverage
+    c['determinism_replay'] = dict(distinct_invocations=nkeys, real_expansions_compared=nexp, differing=len(diffs),
+                                   how='each invocation expanded twice in one rustc process, again in a fresh process, and in reversed order in a third')
+    c['impure_primitives_reached'] = sorted(set(impure))[:10]
+    for d in diffs[:3]:
+        rdir = os.path.join(core.WORK, 'replay', f'S_C20_nondeterministic_{abs(hash(d["input"])) % 10000}')
+        os.makedirs(rdir, exist_ok=True)
+        json.dump(dict(kind='determinism', **d), open(os.path.join(rdir, 'replay.json'), 'w'), indent=1)
+        out.violation('C20:same-invocation-different-expansion' + ('/impure:' + _s.slug(sorted(set(impure))[0], 40) if impure else ''),
+                      f'the same (attribute, item) expanded to {d["n_distinct_outputs"]} different token streams across processes / invocation orders: '
+                      f'#[{d["attr"]}] {d["input"][:200]} | A: {d["first"][:200]} | B: {d["second"][:200]}', rdir, 'S/replay')
+    if impure and not diffs:
+        out.inconc('engine S: an impure primitive is reachable (' + '; '.join(sorted(set(impure))[:3]) + ') but no differing expansion could be produced by the determinism replay')
+    c['explanation'] = (c.get('explanation', '') + ' C20: within the bounds no feasible path of the macro reaches an impure primitive (statics, thread-locals, env, '
+                        'clock, fs, randomness, hash-order iteration) and no unmodelled callee is assumed pure; HashSet is used through collect/contains/insert only.')
